@@ -904,6 +904,7 @@ class FitBase(FileIOMixin, object):
                 relative=relative,
             )
         )
+        self._nexus.get("parameter_constraints").mark_for_update()  # the list behind this node was changed in place
         self._fit_param_names_bad_default = self._fit_param_names_bad_default.difference(names)
 
     def add_parameter_constraint(self, name, value, uncertainty, relative=False):
@@ -919,6 +920,7 @@ class FitBase(FileIOMixin, object):
         except ValueError as _e:
             raise ValueError("Unknown parameter name: %s" % name) from _e
         self._fit_param_constraints.append(GaussianSimpleParameterConstraint(index=_index, value=value, uncertainty=uncertainty, relative=relative))
+        self._nexus.get("parameter_constraints").mark_for_update()  # the list behind this node was changed in place
         self._fit_param_names_bad_default.discard(name)
 
     def get_matching_errors(self, matching_criteria=None, matching_type="equal"):
